@@ -196,9 +196,10 @@ pub fn thrash_for(run: &mut Run, prop: &'static str, filter: &Filter) {
     let cfg = Cfg { addr: DST, msg_types: vec![0x7E, 0x05, 0x00], vendors: vec![(0, 0x1414, 4), (1, 0xDEADBEEF, 9)] };
     let cmds: [(u8, &[u8]); 5] = [(0x02, &[]), (0x03, &[]), (0x04, &[0xFF]), (0x05, &[]), (0x06, &[1])];
     let probe_pkts = probes(&cfg);
-    run.sweep("THRASH: requester A x k, then N distinct requesters, then A / the first of them / a fresh one again (k in 1..=3, N in 0..=20, 5 commands, sweeps of the same or of rotating commands)", 5 * 3 * 21 * 3 * 2, |acc, i| {
+    run.sweep("THRASH: requester A x k, then N distinct requesters, then optionally a revisit (A / first / second of the sweep), then A / the first of them / a fresh one (k in 1..=3, N in 0..=20, 5 commands, sweeps of the same or of rotating commands)", 5 * 3 * 21 * 3 * 2 * 4, |acc, i| {
         let mut ix = Ix(i);
         let rot = ix.take(2) == 1;
+        let mid = ix.take(4);
         let revisit = ix.take(3);
         let n = ix.take(21) as u8;
         let k = ix.take(3) + 1;
@@ -211,6 +212,12 @@ pub fn thrash_for(run: &mut Run, prop: &'static str, filter: &Filter) {
         let mut hist: Vec<Event> = (0..k).map(|_| Event::Process(forge_request(a, DST, 0, false, cmd, data))).collect();
         for j in 0..n {
             hist.push(mk(0x41 + j, j as usize));
+        }
+        match mid {
+            1 => hist.push(Event::Process(forge_request(a, DST, 0, false, cmd, data))),
+            2 => hist.push(Event::Process(forge_request(0x41, DST, 0, false, cmd, data))),
+            3 => hist.push(Event::Process(forge_request(0x42, DST, 0, false, cmd, data))),
+            _ => {}
         }
         let last = match revisit {
             0 => Event::Process(forge_request(a, DST, 0, false, cmd, data)),
